@@ -314,8 +314,21 @@ def _client_parse(path):
     worker.init_worker()
     from geophires_x_client.geophires_x_result import GeophiresXResult
     import copy
+    # every report of this worker is parsed from one and the same path (rewritten case after case): what the client returns
+    # must be the report that is at the path now
+    import shutil
+    fixed = os.path.join(worker.scratch_dir(), f'c10-report-under-parse-{os.getpid()}.out')
+    decoy = os.path.join(EXAMPLES_DIR, 'example1.out')
     with worker.quiet():
-        r = GeophiresXResult(path)
+        if os.path.exists(decoy):
+            # a different report is parsed from that path first, so that a single replayed case holds the whole history
+            shutil.copyfile(decoy, fixed)
+            try:
+                GeophiresXResult(fixed)
+            except Exception:
+                pass
+        shutil.copyfile(path, fixed)
+        r = GeophiresXResult(fixed)
         before = copy.deepcopy({k: v for k, v in r.result.items() if k != 'metadata'})
         csv1 = r.as_csv()
         after = {k: v for k, v in r.result.items() if k != 'metadata'}
